@@ -232,6 +232,14 @@ Definition no_state (s : sock) (x : st) : Prop :=
   ~ In s x.(clients) /\ ~ In s (map fst x.(bufs)) /\ ~ In s x.(closeq) /\
   ~ In s x.(rd) /\ ~ In s x.(wr) /\ ~ In s x.(tg) /\ ~ In s x.(mp).
 
+(* ---- what Poll / EPoll turn one kernel report for socket s into (`_process`): a hang-up / error report counts as
+   a disconnect only when nothing is readable; otherwise the readable / writable reports are passed on first
+   (the hang-up is then found by recv()).  r, w = what recv() / send() will answer. *)
+Definition pemit (s : sock) (ein eout ehup : bool) (r : rres) (w : wres) : list stim :=
+  if ehup && negb ein then [SDrop s; SDisc s]
+  else (if ein then [SRead s r] else []) ++ (if eout then [SWritable s w] else []).
+Definition is_hangup_stim (i : stim) : bool := match i with SDrop _ | SDisc _ => true | _ => false end.
+
 (* ---- one socket's share of the state, and which stimuli concern it (for the isolation theorem) *)
 Record row := mkrow { r_client : bool; r_buf : list N; r_key : bool; r_closeq : bool;
                       r_rd : bool; r_wr : bool; r_tg : bool; r_mp : bool }.
